@@ -376,6 +376,89 @@ def sweep_texts(groups=None):
     return uniq
 
 
+def _rp_text(a):
+    """Fully parenthesised text of a refparse AST (meaning independent of precedence)."""
+    k = a[0]
+    if k == "c":
+        v = a[1]
+        t = repr(v) if isinstance(v, int) else format(v, "f").rstrip("0").rstrip(".") if abs(v) < 1e15 and v == v else repr(v)
+        return t
+    if k == "v":
+        return a[1]
+    if k == "neg":
+        return "-(" + _rp_text(a[1]) + ")"
+    if k == "sgn":
+        return "sgn(" + _rp_text(a[1]) + ")"
+    if k == "!":
+        return _rp_text(a[1]) + "!"
+    if k == "=":
+        return _rp_text(a[1]) + " = " + _rp_text(a[2])
+
+    def operand(x):
+        t = _rp_text(x)
+        if x[0] == "v" or (x[0] == "c" and not t.startswith("-")):
+            return t
+        return "(" + t + ")"
+
+    if k == "^":
+        return operand(a[1]) + "^" + operand(a[2])
+    return operand(a[1]) + " " + k + " " + operand(a[2])
+
+
+def _one_edit(a):
+    """Every AST one edit away: a binary operator replaced by another, a leaf replaced by a leaf of
+    the other kind, a leaf replaced by a compound, two operands exchanged."""
+    k = a[0]
+    if k in ("c", "v"):
+        yield ("v", "q") if k == "c" else ("c", 7)
+        yield ("+", ("v", "p"), ("c", 1))
+        yield ("*", ("c", 2), ("v", "p"))
+        if k == "c":
+            yield ("c", 0) if a[1] != 0 else ("c", 1)
+        return
+    if k in ("+", "-", "*", "/", "^"):
+        for op in ("+", "-", "*", "/", "^"):
+            if op != k:
+                yield (op, a[1], a[2])
+        yield (k, a[2], a[1])
+        yield ("neg", a)
+    for i in range(1, len(a)):
+        if isinstance(a[i], tuple):
+            for sub in _one_edit(a[i]):
+                yield a[:i] + (sub,) + a[i + 1:]
+
+
+def neighbour_texts(groups=None):
+    """Deterministic 'one edit away from every rule template' list: the near-miss shapes on which a
+    rule must either refuse or still be right (a pattern test that looks at the wrong child, accepts
+    the wrong operator or the wrong leaf kind shows here and almost nowhere else)."""
+    from . import refparse
+
+    out = []
+    seen = set()
+    fills = (
+        {"a": "3", "b": "5", "c": "4", "d": "6", "v": "x", "w": "y", "u": "z", "m": "2", "n": "3", "E": "y", "F": "(z + 1)", "G": "z"},
+        {"a": "4", "b": "4", "c": "4", "d": "2", "v": "x", "w": "x", "u": "x", "m": "2", "n": "2", "E": "x", "F": "(x + 4)", "G": "x"},
+    )
+    for g in groups or list(TEMPLATES):
+        for tmpl in TEMPLATES[g]:
+            for vals in fills:
+                t = tmpl.format(**vals)
+                try:
+                    a = refparse.parse(t)
+                except refparse.Reject:
+                    continue
+                for b in _one_edit(a):
+                    try:
+                        txt = _rp_text(b)
+                    except (TypeError, ValueError):
+                        continue
+                    if txt not in seen:
+                        seen.add(txt)
+                        out.append(txt)
+    return out
+
+
 def small_expressions(max_ops, leaves=("x", "y", "2", "-1", "0", "0.5"), ops=("+", "-", "*", "/", "^")):
     """Bounded-exhaustive: every expression with <= max_ops binary operators over the given leaves,
     rendered with explicit parentheses (so the text means exactly the enumerated tree)."""
